@@ -74,6 +74,10 @@ def cases():
     one('const-loop-bounds', '  c = 2\n  d = 4\n  do i=c,d\n    b(i) = b(i) + c\n  end do\n  s = d - c', CP, 'constprop')
     one('negative-step-loop', '  c = 1\n  do i=4,c,-2\n    b(i) = i + c\n    s = s*2 + i\n  end do', CP, 'constprop')
     one('array-element-consts', '  b(1) = 5\n  b(2) = b(1) + 1\n  s = b(2)*2\n  i = 1\n  b(i + 1) = s', CP, 'constprop')
+    one('index-const-before-loop', '  i = 3\n  b(i) = 1\n  do i=1,n\n    b(i) = b(i) + i + 2\n    if (i > 2) s = s + i\n  end do', CP, 'constprop')
+    one('index-const-before-literal-loop', '  j = 2\n  c = j\n  do j=1,3\n    s = s*2 + j\n    b(j) = j - c\n  end do\n  b(4) = c', CP, 'constprop')
+    one('index-reused-nested', '  i = 1\n  do j=1,2\n    do i=j,n\n      b(i) = b(i) + i*j\n    end do\n  end do', CP, 'constprop')
+    one('const-used-as-bound-and-index', '  c = 2\n  i = c\n  do i=i,n\n    b(i) = c + i\n  end do\n  s = s + c', CP, 'constprop')
     one('int-division-and-mod', '  c = 7\n  d = -2\n  s = s + c/d + mod(c, d) + (c + 1)/(d - 1)', CP, 'constprop')
     one('real-consts', '  t = 1.5\n  a(1) = a(1)*t + 2.0*t\n  t = a(2)\n  a(3) = t + 0.5', CP, 'constprop')
     one('logical-consts', '  l = .true.\n  if (l .and. flag) s = s + 1\n  l = .not. l\n  if (l .or. s > 3) s = s - 2', CP + DC, 'constprop')
